@@ -41,6 +41,10 @@ func (round *round4) Start() *tss.Error {
 
 	// compute the multiplicative inverse thelta mod q
 	thetaInverse = modN.ModInverse(thetaInverse)
+	if thetaInverse == nil {
+		// the broadcast theta values sum to 0 mod q: no inverse exists (GG18: "if delta = 0, abort")
+		return round.WrapError(errors.New("the sum of the theta values has no inverse modulo the curve order"))
+	}
 	i := round.PartyID().Index
 	ContextI := append(round.temp.ssid, new(big.Int).SetUint64(uint64(i)).Bytes()...)
 	piGamma, err := schnorr.NewZKProof(ContextI, round.temp.gamma, round.temp.pointGamma, round.Rand())
